@@ -446,6 +446,9 @@ func (pr *Program) Source() string {
 		p.line(1, "\""+s+"\"")
 		p.line(0, "")
 	}
+	for _, s := range pr.Pre {
+		p.stmt(0, s)
+	}
 	for _, f := range pr.Funcs {
 		h := "Die Funktion " + f.Name
 		if len(f.Params) == 1 {
